@@ -26,41 +26,66 @@ def has_descending(items):
     return any(it[0] == "range" and it[2] < it[1] for it in items)
 
 
-def list_model(max_num, max_items=6, max_span=12):
-    num = st.integers(1, max_num)
+import functools
 
-    @st.composite
-    def item(draw):
-        kind = draw(st.sampled_from(["single", "single", "asc", "asc", "desc"]))
-        if kind == "single":
-            return ["single", draw(num)]
-        a = draw(num)
-        span = draw(st.integers(1, max_span))
-        if kind == "asc":
-            b = min(max_num, a + span)
+MAX_ITEMS = 6
+
+
+@functools.lru_cache(maxsize=None)
+def _item_strategy(max_num, max_span):
+    num = st.integers(1, max_num)
+    kind = st.sampled_from(["single", "single", "asc", "asc", "desc"])
+    span = st.integers(1, max_span)
+
+    def build(t):
+        k, a, sp = t
+        if k == "single":
+            return ["single", a]
+        if k == "asc":
+            b = min(max_num, a + sp)
             if b == a:
-                a = max(1, a - span)
+                a = max(1, a - sp)
             return ["range", a, b]
-        b = max(1, a - span)
+        b = max(1, a - sp)
         if b == a:
-            a = min(max_num, a + span)
+            a = min(max_num, a + sp)
         return ["range", a, b]
 
-    return st.lists(item(), min_size=1, max_size=max_items)
+    return st.tuples(kind, num, span).map(build)
 
 
-def rendering(kind, n_items):
-    """Strategy for how to render a model with n_items items."""
+@functools.lru_cache(maxsize=None)
+def list_model(max_num, max_items=6, max_span=12):
+    return st.lists(_item_strategy(max_num, max_span), min_size=1, max_size=max_items)
+
+
+@functools.lru_cache(maxsize=None)
+def _rendering(kind, n=MAX_ITEMS):
+    """Rendering choices for up to n items (sliced to the model's length afterwards)."""
     lead = SEC_LEAD if kind == "sec" else LOT_LEAD
     rep = SEC_REPEAT if kind == "sec" else LOT_REPEAT
     return st.fixed_dictionaries({
         "lead": st.sampled_from(lead),
         "lead_space": st.booleans(),
-        "through": st.lists(st.sampled_from(THROUGH), min_size=n_items, max_size=n_items),
-        "connect": st.lists(st.sampled_from(CONNECT), min_size=n_items, max_size=n_items),
-        "repeat_item": st.lists(st.one_of(st.none(), st.none(), st.sampled_from(rep)), min_size=n_items, max_size=n_items),
-        "repeat_thru": st.lists(st.one_of(st.none(), st.none(), st.none(), st.sampled_from(rep)), min_size=n_items, max_size=n_items),
+        "through": st.lists(st.sampled_from(THROUGH), min_size=n, max_size=n),
+        "connect": st.lists(st.sampled_from(CONNECT), min_size=n, max_size=n),
+        "repeat_item": st.lists(st.sampled_from([None] * (2 * len(rep)) + rep), min_size=n, max_size=n),
+        "repeat_thru": st.lists(st.sampled_from([None] * (3 * len(rep)) + rep), min_size=n, max_size=n),
     })
+
+
+def _trim(t):
+    items, r = t
+    n = len(items)
+    r = dict(r)
+    for k in ("through", "connect", "repeat_item", "repeat_thru"):
+        r[k] = r[k][:n]
+    return {"items": items, "r": r}
+
+
+@functools.lru_cache(maxsize=None)
+def rendered_list(kind, max_num, max_items=6):
+    return st.tuples(list_model(max_num, max_items), _rendering(kind, max_items)).map(_trim)
 
 
 def render(items, r, acres=None):
@@ -88,8 +113,3 @@ def render(items, r, acres=None):
     return out
 
 
-@st.composite
-def rendered_list(draw, kind, max_num, max_items=6):
-    items = draw(list_model(max_num, max_items))
-    r = draw(rendering(kind, len(items)))
-    return {"items": items, "r": r}
